@@ -4,6 +4,7 @@ import (
 	"bytes"
 	"errors"
 	"fmt"
+	"math/rand"
 	"sort"
 
 	"github.com/thomasjungblut/go-sstables/pq"
@@ -116,6 +117,10 @@ func runC16(c *fw.Case) {
 			}
 		case 1:
 			ks := gen.AscendingKeys(c.R, n, gen.Pick(c.R, 0, 1, 2, 3, 4))
+			if c.R.Intn(4) == 0 {
+				ks = c16PrefixFamily(c.R, min(n, 60))
+				c.Obs("key_sets_that_are_prefixes_of_one_buffer", 1)
+			}
 			c.R.Shuffle(len(ks), func(i, j int) { ks[i], ks[j] = ks[j], ks[i] })
 			c16SkipBytes(c, ks)
 		default:
@@ -419,9 +424,24 @@ func (it *c16Iter) Next() ([]byte, int, error) {
 }
 func (it *c16Iter) Context() int { return it.ctx }
 
+// c16PrefixFamily returns n distinct keys that are all slices of ONE buffer starting at the same address
+// (base[:1], base[:2], ...): equal start, different lengths, ascending in byte order
+func c16PrefixFamily(r *rand.Rand, n int) [][]byte {
+	base := gen.Bytes(r, n)
+	var ks [][]byte
+	for i := 1; i <= n; i++ {
+		ks = append(ks, base[:i])
+	}
+	return ks
+}
+
 func c16PQ(c *fw.Case) {
 	k := c.R.Intn(9)
 	universe := gen.AscendingKeys(c.R, 4+c.R.Intn(60), gen.Pick(c.R, 0, 1, 3, 4))
+	if c.R.Intn(4) == 0 {
+		universe = c16PrefixFamily(c.R, len(universe))
+		c.Obs("key_sets_that_are_prefixes_of_one_buffer", 1)
+	}
 	var iters []pq.IteratorWithContext[[]byte, int, int]
 	var inputs [][]c16Elem
 	id := 0
